@@ -58,6 +58,8 @@ SPEC = Spec(
         "group-key computation (lower-casing/sorting of metadata_keys, Metadata.Get case-insensitivity, String vs StringSlice, "
         "attribute.NewSet) is NOT modelled: Key = value lists of the configured keys as computed by the harness; exercised with "
         "absent / empty / single / multi / REORDERED multi ([v2,v1] vs [v1,v2]) / near-colliding (v12 vs [v1,v2], v1 vs v10) values, "
+        "an adversarial pool of raw byte strings ('[]', '[\"a\",\"b\"]' vs the two-valued header, commas, quotes, backslashes, brackets, "
+        "non-UTF-8 bytes, 300-byte values differing in the last byte, case variants; interned byte-exactly by generator and sink), "
         "1-3 keys, lower/Title/UPPER header names",
         "the export context is observed completely: the sink dumps client.Info (Auth, Addr, every metadata key) of every export; the "
         "model says 'values of the configured keys only'; incoming contexts carry other headers, credentials and peer addresses",
